@@ -82,22 +82,27 @@ structure WBuf where
   hi : Nat
 deriving Repr, DecidableEq
 
+/-- the list `l` with `xs` copied over positions `off .. off + xs.length` (pointwise; length-preserving) -/
+def upd (l : List Nat) (off : Nat) (xs : List Nat) : List Nat :=
+  l.mapIdx fun i x => if off ≤ i ∧ i < off + xs.length then xs.getD (i - off) 0 else x
+
 namespace WBuf
 def len (b : WBuf) : Nat := b.bytes.length
+/-- effect of writing `xs` at `off` (in range) -/
+def put (b : WBuf) (off : Nat) (xs : List Nat) : WBuf :=
+  ⟨upd b.bytes off xs, if xs.length = 0 then b.hi else max b.hi (off + xs.length)⟩
 /-- `bytes[i] = v` -/
 def set (b : WBuf) (i v : Nat) : Res WBuf :=
-  if i < b.len then .ok ⟨b.bytes.set i v, max b.hi (i + 1)⟩ else .panic
+  if i < b.len then .ok (b.put i [v]) else .panic
 /-- `bytes[i]` -/
 def get (b : WBuf) (i : Nat) : Res Nat :=
   if i < b.len then .ok (b.bytes.getD i 0) else .panic
 /-- `copy_to_dst(&mut bytes[off..off + xs.len()], xs)` / a digit writer's effect -/
 def blit (b : WBuf) (off : Nat) (xs : List Nat) : Res WBuf :=
-  if off + xs.length ≤ b.len then
-    .ok ⟨b.bytes.take off ++ xs ++ b.bytes.drop (off + xs.length), if xs.length = 0 then b.hi else max b.hi (off + xs.length)⟩
-  else .panic
+  if off + xs.length ≤ b.len then .ok (b.put off xs) else .panic
 /-- `bytes[i..j].fill(v)` (slice index order and end are checked) -/
 def fill (b : WBuf) (i j v : Nat) : Res WBuf :=
-  if i ≤ j ∧ j ≤ b.len then b.blit i (List.replicate (j - i) v) else .panic
+  if i ≤ j ∧ j ≤ b.len then .ok (b.put i (List.replicate (j - i) v)) else .panic
 /-- `&mut bytes[k..]` exists and is at least `need` long (`&mut (&mut bytes[k..])[..need]`) -/
 def demand (b : WBuf) (k need : Nat) : Res Unit :=
   if k ≤ b.len ∧ need ≤ b.len - k then .ok () else .panic
@@ -120,17 +125,20 @@ def expNeed (feats : Features) (expRadix count : Nat) : Nat :=
   else if ¬ feats.powerOfTwo ∨ expRadix = 10 then 10
   else count
 
-/-- `shared::write_exponent` at `cursor` -/
+/-- sign bytes of `shared::write_exponent_sign` -/
+def expSign (fmt : Format) (feats : Features) (exp : Int) : List Nat :=
+  if exp < 0 then [45] else if feats.format ∧ fmt.requiredExponentSign then [43] else []
+
+/-- `shared::write_exponent` at `cursor`.  The optional sign is written with `blit`: for the empty sign this only
+asks `cursor ≤ len`, which is exactly what the `&mut bytes[*cursor..]` that follows demands. -/
 def writeExponentB (fmt : Format) (feats : Features) (b : WBuf) (cursor : Nat) (exp : Int) (expChar : Nat) : Res Out := do
   let b ← b.set cursor expChar
-  let cursor := cursor + 1
-  let signed : Bool := exp < 0 ∨ (feats.format ∧ fmt.requiredExponentSign)
-  let b ← if exp < 0 then b.set cursor 45 else if feats.format ∧ fmt.requiredExponentSign then b.set cursor 43 else .ok b
-  let cursor := if signed then cursor + 1 else cursor
+  let b ← b.blit (cursor + 1) (expSign fmt feats exp)
+  let c2 := cursor + 1 + (expSign fmt feats exp).length
   let digits := numeral fmt.exponentRadix exp.natAbs
-  let _ ← b.demand cursor (expNeed feats fmt.exponentRadix digits.length)
-  let b ← b.blit cursor digits
-  .ok ⟨b, cursor + digits.length⟩
+  let _ ← b.demand c2 (expNeed feats fmt.exponentRadix digits.length)
+  let b ← b.blit c2 digits
+  .ok ⟨b, c2 + digits.length⟩
 
 /-- trailing zeros: `bytes[cursor..cursor + zeros].fill(b'0')` when `count < exact` -/
 def padZeros (b : WBuf) (cursor count exact : Nat) : Res Out :=
@@ -141,26 +149,26 @@ def padZeros (b : WBuf) (cursor count exact : Nat) : Res Out :=
 
 /-! ## Dragonbox builds (`algorithm.rs`) -/
 
+/-- the fraction part of `write_float_scientific` (both back-ends): what follows `bytes[1] = decimal_point`.
+`frac` = the digits after the first one when they still have to be copied (`compact`), `[]` when they are in place. -/
+def sciBody (fmt : Format) (count : Nat) (frac : List Nat) (o : WOpts) (b : WBuf) : Res Out :=
+  let exact := minExactDigits count o
+  if ¬ fmt.noExponentWithoutFraction ∧ count = 1 ∧ o.trim then .ok ⟨b, 1⟩
+  else if count < exact then b.blit 2 frac >>= fun b => padZeros b (count + 1) count exact
+  else if count = 1 then b.set 2 48 >>= fun b => .ok ⟨b, 3⟩
+  else b.blit 2 frac >>= fun b => .ok ⟨b, count + 1⟩
+
 /-- `algorithm::write_float_scientific` -/
 def sciN (fmt : Format) (feats : Features) (need : Nat) (ds : List Nat) (sciExp : Int) (o : WOpts) (b : WBuf) : Res Out := do
   let _ ← b.demand 1 need                      -- `&mut bytes[1..]`, then the digit writer's `[..need]`
   let b ← b.blit 1 (chars ds)
   let tr := truncateAndRound ds o
   let b ← b.blit 1 (chars tr.1)                -- in-place rounding inside the digits already written
-  let sciExp := sciExp + (if tr.2 then 1 else 0)
-  let count := tr.1.length
-  let exact := minExactDigits count o
   let d0 ← b.get 1
   let b ← b.set 0 d0
   let b ← b.set 1 o.dp
-  let r ←
-    if ¬ fmt.noExponentWithoutFraction ∧ count = 1 ∧ o.trim then (.ok ⟨b, 1⟩ : Res Out)
-    else if count < exact then padZeros b (count + 1) count exact
-    else if count = 1 then do
-      let b ← b.set 2 48
-      .ok ⟨b, 3⟩
-    else .ok ⟨b, count + 1⟩
-  writeExponentB fmt feats r.buf r.cursor sciExp o.exp
+  let r ← sciBody fmt tr.1.length [] o b        -- the fraction digits are already in place
+  writeExponentB fmt feats r.buf r.cursor (sciExp + (if tr.2 then 1 else 0)) o.exp
 
 /-- `algorithm::write_float_negative_exponent` -/
 def negN (need : Nat) (ds : List Nat) (sciExp : Int) (o : WOpts) (b : WBuf) : Res Out := do
@@ -225,21 +233,9 @@ def decimalN (fmt : Format) (feats : Features) (need : Nat) (ds : List Nat) (sci
 
 /-- `compact::write_float_scientific` (digits already rounded) -/
 def sciC (fmt : Format) (feats : Features) (ds : List Nat) (sciExp : Int) (o : WOpts) (b : WBuf) : Res Out := do
-  let count := ds.length
-  let exact := minExactDigits count o
   let b ← b.set 0 (digitChar (ds.headD 0))
   let b ← b.set 1 o.dp
-  let r ←
-    if ¬ fmt.noExponentWithoutFraction ∧ count = 1 ∧ o.trim then (.ok ⟨b, 1⟩ : Res Out)
-    else if count < exact then do
-      let b ← b.blit 2 (chars ds.tail)
-      padZeros b (count + 1) count exact
-    else if count = 1 then do
-      let b ← b.set 2 48
-      .ok ⟨b, 3⟩
-    else do
-      let b ← b.blit 2 (chars ds.tail)
-      .ok ⟨b, count + 1⟩
+  let r ← sciBody fmt ds.length (chars ds.tail) o b
   writeExponentB fmt feats r.buf r.cursor sciExp o.exp
 
 /-- `compact::write_float_negative_exponent` -/
